@@ -211,7 +211,11 @@ func GenFiles1(t *rapid.T, maxFiles, maxBytes int) []FileSpec {
 		case 2:
 			sz = 16384 + rapid.IntRange(-1, 1).Draw(t, "d")
 		case 3:
-			sz = rapid.IntRange(16385, maxBytes).Draw(t, "big")
+			if maxBytes > 16385 {
+				sz = rapid.IntRange(16385, maxBytes).Draw(t, "big")
+			} else {
+				sz = rapid.IntRange(1, maxBytes).Draw(t, "big")
+			}
 		default:
 			sz = rapid.IntRange(1, 300).Draw(t, "small")
 		}
